@@ -1,0 +1,5 @@
+//go:build !verif
+
+package pfcp
+
+func (s *PfcpServer) verifIdle() {}
